@@ -65,6 +65,10 @@ type Vocab struct {
 	// IIFEs: "pkg|Func" -> number of immediately invoked function literals (`func() {…}()`, not under defer / go).
 	// A function that has more than in the reference tree had a block wrapped into one; those are inlined back.
 	IIFEs map[string]int `json:"iifes,omitempty"`
+	// Params: "pkg|Func" -> parameter names in order (unexported functions with two or more named parameters). A
+	// function that still has exactly these parameters under these names, in another order, had its parameters
+	// re-ordered; declaration and calls are put back into this order.
+	Params map[string][]string `json:"params,omitempty"`
 }
 
 func sigText(ft *ast.FuncType) string {
@@ -191,6 +195,29 @@ func countReturns(body ast.Node) int {
 	return n
 }
 
+// paramNames: the parameter names of a function type in order; nil when a parameter is unnamed, blank or variadic.
+func paramNames(ft *ast.FuncType) []string {
+	if ft.Params == nil {
+		return nil
+	}
+	var out []string
+	for _, f := range ft.Params.List {
+		if len(f.Names) == 0 {
+			return nil
+		}
+		if _, isEll := f.Type.(*ast.Ellipsis); isEll {
+			return nil
+		}
+		for _, n := range f.Names {
+			if n.Name == "_" {
+				return nil
+			}
+			out = append(out, n.Name)
+		}
+	}
+	return out
+}
+
 // closureLits: name -> the function literal bound to it (`name := func…`, `name = func…`, `var name = func…`); a name
 // bound more than once is left out.
 func closureLits(body ast.Node) map[string]*ast.FuncLit {
@@ -261,7 +288,7 @@ func closureSigs(body ast.Node) map[string]string {
 
 // ScanNames parses the non-test Go files below dir (content from overlay when present) and returns their names.
 func ScanNames(dir string, overlay map[string][]byte) (*Vocab, error) {
-	v := &Vocab{Funcs: map[string][]string{}, Closures: map[string]map[string][]string{}, Sigs: map[string]string{}, Ranges: map[string][]string{}, Vars: map[string][]string{}, Returns: map[string]int{}, IIFEs: map[string]int{}}
+	v := &Vocab{Funcs: map[string][]string{}, Closures: map[string]map[string][]string{}, Sigs: map[string]string{}, Ranges: map[string][]string{}, Vars: map[string][]string{}, Returns: map[string]int{}, IIFEs: map[string]int{}, Params: map[string][]string{}}
 	fset := token.NewFileSet()
 	err := filepath.Walk(dir, func(path string, fi os.FileInfo, err error) error {
 		if err != nil {
@@ -314,6 +341,11 @@ func ScanNames(dir string, overlay map[string][]byte) (*Vocab, error) {
 			}
 			v.Funcs[rel] = append(v.Funcs[rel], name)
 			v.Sigs[rel+"|"+name] = sigText(fd.Type)
+			if !fd.Name.IsExported() {
+				if pn := paramNames(fd.Type); len(pn) >= 2 {
+					v.Params[rel+"|"+name] = pn
+				}
+			}
 			if fd.Body != nil {
 				for cn, lit := range closureLits(fd.Body) {
 					v.Returns[rel+"|"+name+"$"+cn] = countReturns(lit.Body)
@@ -527,6 +559,15 @@ func Normalise(cfg Config, voc *Vocab) (*NormResult, error) {
 			newRangePkgs[pk] = true
 		}
 	}
+	reorderPkgs := map[string]bool{}
+	for key, want := range voc.Params {
+		have, ok := cur.Params[key]
+		if ok && len(have) == len(want) && !sameStrings(have, want) && samePermutation(have, want) {
+			pk := strings.SplitN(key, "|", 2)[0]
+			reorderPkgs[pk] = true
+			newRangePkgs[pk] = true
+		}
+	}
 	renames := lastRenames
 	for pk := range renames {
 		newRangePkgs[pk] = true
@@ -601,7 +642,10 @@ func Normalise(cfg Config, voc *Vocab) (*NormResult, error) {
 					fname := pk.CompiledGoFiles[i]
 					src := in.srcOf(fname)
 					var edits []textEdit
-					if round <= 2 {
+					if round == 0 && reorderPkgs[rel] {
+						edits = in.paramOrderEdits(f)
+					}
+					if len(edits) == 0 && round <= 2 {
 						// (a method whose receiver is only used to call other such methods becomes convertible once those are)
 						edits = in.renameBackEdits(f, renames[rel])
 						if len(edits) == 0 && !tailDone[fname] {
@@ -2696,4 +2740,156 @@ func (in *inliner) renamePlan(newName, oldName string) *renamePlan {
 		return nil
 	}
 	return plan
+}
+
+func sameStrings(a, b []string) bool {
+	if len(a) != len(b) {
+		return false
+	}
+	for i := range a {
+		if a[i] != b[i] {
+			return false
+		}
+	}
+	return true
+}
+
+// samePermutation: b is a re-ordering of a (distinct names).
+func samePermutation(a, b []string) bool {
+	if len(a) != len(b) {
+		return false
+	}
+	seen := map[string]int{}
+	for _, x := range a {
+		seen[x]++
+	}
+	for _, x := range b {
+		if seen[x] != 1 {
+			return false
+		}
+		seen[x]--
+	}
+	return true
+}
+
+// paramOrderEdits: an unexported function whose parameters are those of the reference tree in another order gets the
+// reference order back, at its declaration and at every call in this file. Refused (nothing is changed for that
+// function) when it is used other than by being called, or a call spreads a slice.
+func (in *inliner) paramOrderEdits(f *ast.File) []textEdit {
+	if in.voc == nil || len(in.voc.Params) == 0 {
+		return nil
+	}
+	info := in.pk.TypesInfo
+	type plan struct {
+		fd   *ast.FuncDecl
+		perm []int // perm[k] = index in the current order of the k-th parameter of the reference order
+	}
+	plans := map[types.Object]*plan{}
+	for _, file := range in.pk.Syntax {
+		for _, d := range file.Decls {
+			fd, ok := d.(*ast.FuncDecl)
+			if !ok || fd.Body == nil || fd.Name.IsExported() {
+				continue
+			}
+			want, has := in.voc.Params[in.rel+"|"+declName(fd)]
+			have := paramNames(fd.Type)
+			if !has || have == nil || sameStrings(have, want) || !samePermutation(have, want) {
+				continue
+			}
+			pos := map[string]int{}
+			for i, n := range have {
+				pos[n] = i
+			}
+			pl := &plan{fd: fd}
+			for _, n := range want {
+				pl.perm = append(pl.perm, pos[n])
+			}
+			if o := info.Defs[fd.Name]; o != nil {
+				plans[o] = pl
+			}
+		}
+	}
+	if len(plans) == 0 {
+		return nil
+	}
+	// every use must be the function of a call, in the whole package
+	for _, file := range in.pk.Syntax {
+		parents := map[ast.Node]ast.Node{}
+		var stack []ast.Node
+		ast.Inspect(file, func(n ast.Node) bool {
+			if n == nil {
+				stack = stack[:len(stack)-1]
+				return false
+			}
+			if len(stack) > 0 {
+				parents[n] = stack[len(stack)-1]
+			}
+			stack = append(stack, n)
+			return true
+		})
+		ast.Inspect(file, func(n ast.Node) bool {
+			id, ok := n.(*ast.Ident)
+			if !ok {
+				return true
+			}
+			o := info.Uses[id]
+			if o == nil || plans[o] == nil {
+				return true
+			}
+			var fun ast.Node = id
+			if sel, isSel := parents[id].(*ast.SelectorExpr); isSel && sel.Sel == id {
+				fun = sel
+			}
+			call, isCall := parents[fun].(*ast.CallExpr)
+			if !isCall || call.Fun != fun || call.Ellipsis.IsValid() || len(call.Args) != len(plans[o].perm) {
+				delete(plans, o)
+			}
+			return true
+		})
+	}
+	var edits []textEdit
+	for o, pl := range plans {
+		// declaration (in this file)
+		if file, _ := in.fileOf(pl.fd.Pos()); file == f {
+			type pinfo struct{ name, typ string }
+			var cur []pinfo
+			for _, fld := range pl.fd.Type.Params.List {
+				for _, n := range fld.Names {
+					cur = append(cur, pinfo{n.Name, in.text(fld.Type)})
+				}
+			}
+			var parts []string
+			for _, k := range pl.perm {
+				parts = append(parts, cur[k].name+" "+cur[k].typ)
+			}
+			lp, rp := pl.fd.Type.Params.Opening, pl.fd.Type.Params.Closing
+			edits = append(edits, textEdit{off: in.offset(lp) + 1, end: in.offset(rp), text: strings.Join(parts, ", ")})
+			where := in.pk.Fset.PositionFor(pl.fd.Pos(), true)
+			in.res.Inlined = append(in.res.Inlined, fmt.Sprintf("%s: parameters of %s put back into the reference order (%s:%d)", in.rel, declName(pl.fd), filepath.Base(where.Filename), where.Line))
+		}
+		// calls in this file
+		ast.Inspect(f, func(n ast.Node) bool {
+			call, ok := n.(*ast.CallExpr)
+			if !ok {
+				return true
+			}
+			var id *ast.Ident
+			switch fn := call.Fun.(type) {
+			case *ast.Ident:
+				id = fn
+			case *ast.SelectorExpr:
+				id = fn.Sel
+			}
+			if id == nil || info.Uses[id] != o || len(call.Args) != len(pl.perm) {
+				return true
+			}
+			var parts []string
+			for _, k := range pl.perm {
+				parts = append(parts, in.text(call.Args[k]))
+			}
+			edits = append(edits, textEdit{off: in.offset(call.Lparen) + 1, end: in.offset(call.Rparen), text: strings.Join(parts, ", ") + in.lineDirective(call.Rparen)})
+			return true
+		})
+	}
+	return edits
 }
